@@ -206,14 +206,22 @@ def r5(ctx, retsets):
              "force request_session_id = true and serial 0")
     st = pdb.enum("rtr_socket_state")
     forks = {"tr_open": [-1, 0], "rtr_send_serial_query": [-1, 0], "rtr_send_reset_query": [-1, 0]}
-    for req in (1, 0):
-        outs = fsm.explore_arm(pdb, st["RTR_CONNECTING"], forks=forks, cell={RS: req}, interesting={"rtr_purge_outdated_records"})
+    # the expiry check made while connecting may itself drop the session (it sets request_session_id when the data
+    # was purged): the decision has to be taken on the flag as it is after that call, not on a value read before it
+    purge = pdb.fn("rtr_purge_outdated_records")
+    sets_flag = any(i.op == "store" and vf.store_field(i) == "rtr_socket.request_session_id" and vf.expr(purge, i["val"]) == ("c", 1)
+                    for i in purge.all_insts())
+    effects = {"rtr_purge_outdated_records": [("kept", {})] + ([("expired", {RS: 1})] if sets_flag else [])}
+    for req0 in (1, 0):
+        outs = fsm.explore_arm(pdb, st["RTR_CONNECTING"], forks=forks, cell={RS: req0}, effects=effects)
         opened = [o for o in outs if ("call", "tr_open", 0) in [e[:3] for e in o["events"]]]
         if not opened:
             raise AnalysisBroken("CONNECTING arm: successful tr_open not found")
         for o in opened:
             ev = [e[:3] for e in o["events"]]
-            after = ev[ev.index(("call", "tr_open", 0)) + 1:]
+            expired = ("call", "rtr_purge_outdated_records", "expired") in ev
+            req = 1 if expired else req0
+            after = [e for e in ev[ev.index(("call", "tr_open", 0)) + 1:] if e[:2] != ("call", "rtr_purge_outdated_records")]
             if req:
                 good = after == [("state", st["RTR_RESET"], after[0][2] if after else None)] or \
                     [e[:2] for e in after] == [("state", st["RTR_RESET"])]
@@ -222,9 +230,9 @@ def r5(ctx, retsets):
                 good = len(after) >= 1 and after[0][:2] == ("call", "rtr_send_serial_query") and \
                     not any(e[:2] == ("call", "rtr_send_reset_query") or e[:2] == ("state", st["RTR_RESET"]) for e in after)
                 want = "Serial Query"
-            ctx.check(good, "C05.R5", "CONNECTING[request_session_id=%d]" % req, "rtrlib/rtr/rtr.c",
-                      "after open: %s (expected %s)" % ([e[:3] for e in after], want),
-                      key="C05.R5:connecting:request=%d" % req)
+            ctx.check(good, "C05.R5", "CONNECTING[request_session_id=%d%s]" % (req0, ",data expired while connecting" if expired else ""),
+                      "rtrlib/rtr/rtr.c", "after open: %s (expected %s)" % ([e[:3] for e in after], want),
+                      key="C05.R5:connecting:request=%d%s" % (req0, ":expired" if expired else ""))
     outs = fsm.explore_arm(pdb, st["RTR_RESET"], forks=forks)
     good = all(any(e[:2] == ("call", "rtr_send_reset_query") for e in o["events"]) and
                not any(e[:2] == ("call", "rtr_send_serial_query") for e in o["events"]) for o in outs) and outs
